@@ -301,7 +301,7 @@ theorem first_message_must_stay (s : Slot) (c : Nat) (hc : s.from_ ≠ c) (hf : 
     (hs : s.dep ≠ .ownSched) (hd : s.dep.changes s.from_ s.to c = false) :
     s.expect c = .mustSame := by
   have hc' : (s.from_ == c) = false := by simpa using hc
-  cases hdep : s.dep <;> simp_all [Slot.expect]
+  cases hdep : s.dep <;> simp_all [Slot.expect, Dep.changes]
 
 /-- the dependencies a first message may have: its sender's stream (possibly scheduled) or nothing -/
 def firstDepOk : Dep → Bool
@@ -641,7 +641,7 @@ theorem need_well_formed (ids : List Nat) (d id : Nat) :
     ∀ sp ∈ allSpecs ids, ∀ st ∈ sp.need d id, wellFormed (st.once ++ st.perPeer) = true := by
   intro sp hsp st hst
   simp only [allSpecs, List.mem_cons, List.not_mem_nil, or_false] at hsp
-  rcases hsp with rfl | rfl | rfl | rfl | rfl | rfl | rfl | rfl | rfl | rfl | rfl | rfl
+  rcases hsp with rfl | rfl | rfl | rfl | rfl | rfl | rfl | rfl | rfl | rfl | rfl | rfl | rfl
   all_goals
     simp only [session, dealer, gennaro, canetti, hjky, redistribute, lindell22, dkls23Bbot, dkls23Softspoken,
       boldyreva, lindell17] at hst
